@@ -196,3 +196,20 @@ def load_known():
     with open(KNOWN) as fh:
         data = json.load(fh)
     return data.get("findings", [])
+
+
+class RuleProxy:
+    """forwards the obligations of a rule borrowed from another property under this property's rule id"""
+
+    def __init__(self, run, rid, keep=None):
+        self._run, self._rid, self._keep = run, rid, keep
+
+    def obligation(self, rid, construct, ok, **kw):
+        if self._keep is None or self._keep(construct, kw.get("key", "")):
+            return self._run.obligation(self._rid, construct, ok, **kw)
+
+    def instance(self, rid, what=None):
+        return self._run.instance(self._rid, what)
+
+    def __getattr__(self, name):
+        return getattr(self._run, name)
